@@ -47,8 +47,10 @@ func directed() []tcase {
 	}
 }
 
+var variant = "repaired"
+
 func runCase(ctx context.Context, s *hx.Session, tc tcase) error {
-	hdr := fmt.Sprintf("%s slot=%d writers=%d", tc.name, tc.sc.Slot, len(tc.sc.Writers))
+	hdr := fmt.Sprintf("%s variant=%s slot=%d writers=%d", tc.name, variant, tc.sc.Slot, len(tc.sc.Writers))
 	o, err := occ4.Drive(ctx, s, tc.sc, tc.sched, hdr, tc.root)
 	if err != nil {
 		return fmt.Errorf("case %q: %w", hdr, err)
@@ -105,6 +107,14 @@ func run(o hx.RunOpts) error {
 		"add-only writers with overlapping keys (duplicate-key exit of the merge), plus the first-root race; after every finished transaction a cold reader's Count() and First/Next scan are taken. "+
 		"The stored count and the items are compared with the Lean model after every transaction; distinct = canonical op-line hash; non-trivial = a writer failed/aborted or its count delta went through refetch-and-merge")
 	ctx := context.Background()
+	// C06 is proved for the pinned and for the repaired refetch-and-merge alike: which of the two the tree under test
+	// has is established by a directed probe and handed to the model in every case header
+	v, err := occ4.DetectVariant(ctx)
+	if err != nil {
+		return err
+	}
+	variant = v
+	s.Hit("merge_variant:" + v)
 	p := hx.NewPrng(o.Seed)
 	for _, tc := range directed() {
 		if err := runCase(ctx, s, tc); err != nil {
